@@ -117,6 +117,9 @@ pub fn record_stats(scn: &ReadScn, cfg: &Cfg, log: &RunLog, st: &mut Stats) -> O
     st.count("step.total_seam_calls", log.total_steps);
     st.count("fault.interrupted_read", log.interrupts);
     st.count("fault.short_read", log.short_reads);
+    if log.false_eofs > 0 {
+        st.count("fault.zero_length_read_before_the_end", log.false_eofs);
+    }
     let mut nontrivial = false;
     let mut first_fill_seen = false;
     let mut prev_kind = "start";
@@ -240,7 +243,7 @@ pub struct ReadCheck {
 const C13_ONLY: &[&str] = &["panic", "hang", "wrong_batch"];
 const C19_ONLY: &[&str] = &["panic", "hang"];
 const C17_ONLY: &[&str] = &["wrong_error", "wrong_error_after_refusal", "message", "panic", "hang"];
-const C20_ONLY: &[&str] = &["not_end_after_end", "drain_no_end", "panic", "hang"];
+const C20_ONLY: &[&str] = &["not_end_after_end", "end_not_sticky", "drain_no_end", "panic", "hang"];
 
 impl ReadCheck {
     fn judge_opts(&self) -> JudgeOpts<'static> {
@@ -379,7 +382,7 @@ pub fn gen_read_scn(id: &str, rng: &Rng, tier: Tier) -> ReadScn {
                         Fmt::Fastq => input.extend_from_slice(b"@a\nC\n+\nI\n"),
                     }
                 }
-                let cfg = Cfg { cap: rng.range(64, 4096), policy: PolicySpec::Std, script: vec![], cuts: vec![], faults: vec![], intr_burst: None, lift: None };
+                let cfg = Cfg { cap: rng.range(64, 4096), policy: PolicySpec::Std, script: vec![], cuts: vec![], faults: vec![], intr_burst: None, lift: None, pause: None };
                 let mut ops = ops_next_to_end(k);
                 // and a few seeks far into the file
                 for _ in 0..6 {
@@ -496,7 +499,7 @@ pub fn gen_read_scn(id: &str, rng: &Rng, tier: Tier) -> ReadScn {
             if id == "C19" && rng.chance(1, 300) {
                 // several KiB inside one reader buffer; record sets that start far from offset 0
                 let input = many_small_records(rng, fmt, rng.range(9000, 20000));
-                let cfg = Cfg { cap: rng.range(8192, 16384), policy: PolicySpec::Std, script: vec![], cuts: vec![], faults: vec![], intr_burst: None, lift: None };
+                let cfg = Cfg { cap: rng.range(8192, 16384), policy: PolicySpec::Std, script: vec![], cuts: vec![], faults: vec![], intr_burst: None, lift: None, pause: None };
                 let mut ops = vec![];
                 for _ in 0..rng.range(3, 12) {
                     for _ in 0..rng.range(0, 60) {
@@ -547,6 +550,16 @@ pub fn gen_read_scn(id: &str, rng: &Rng, tier: Tier) -> ReadScn {
             let mix = OpMix { next: 4, owned: 2, set: 2, exact: 2, seek: 0, iter: 1 };
             let len = 1 + rng.small(10);
             let mut ops = gen_history(rng, mix, len, n, true);
+            if id == "C20" && rng.chance(1, 8) {
+                // a growing input: one read returns Ok(0) although more data follow. Whatever the
+                // reader makes of the data it got, once it has reported the end it has to stay there
+                let est_calls = input.len() / cfg.cap.max(1) + 2;
+                cfg.pause = Some(if rng.chance(1, 3) { 0 } else { rng.small(est_calls) });
+                ops = (0..n + 2).map(|_| match rng.below(4) { 0 => Op::OwnedNext, 1 => Op::ReadSet(0), _ => Op::Next }).collect();
+                for _ in 0..rng.range(2, 5) {
+                    ops.push(if rng.chance(1, 3) { Op::OwnedNext } else { Op::Next });
+                }
+            }
             if id == "C20" && rng.chance(1, 3) {
                 ops.push(Op::Drain);
             }
